@@ -65,6 +65,23 @@ TARGETED = [
 SINKS = ["Svc.1.0 svc\n@print {e}", "Svc.1.0[<=2] svcs\n@print _offset_ == {e}", "@print {e}", "@assert {e}", "@assert {e} == {e}", "uint8 X = {e}", "float64 X = {e}", "int64 X = {e}", "bool X = {e}", "float16 X = {e}", "uint8[{e}] arr", "uint8[<={e}] arr", "uint8[<{e}] arr", "@extent {e}", "@print {{{e}}}", "@print ({e}).count", "@print !({e})", "@print -({e})", "@print ({e}) ** 2", "@print ({e}) % 7"]
 
 
+# corner operands x what can be done to an operand: every combination is a one-line expression that must be evaluated or rejected,
+# never crash - in particular results that the operand constructors never produce themselves (an intersection that comes out empty,
+# a symmetric difference of equal sets) followed by the operations that assume a non-empty, homogeneous operand
+CORNER_BASES = ["{1, 2} & {3, 4}", "{1, 2} ^ {2, 1}", "{'a'} & {'b'}", "{1} & {2} | {3} & {4}", "{true} ^ {true}", "({1} | {2}) & {3}", "{1, 2} & {2, 3}", "{1/2} ^ {0.5}",
+                "{1e5000} & {1}", "{{1}} & {{2}}", "{}", "{1}", "{'a', 'b'}", "{true, false}", "1", "'a'", "true", "1/3", "1e5000", "Dep.1.0", "uint8", "_offset_", "Dep.1.0._bit_length_"]
+CORNER_WRAPS = ["(%s).min", "(%s).max", "(%s).count", "(%s) + 1", "1 - (%s)", "(%s) == (%s)", "{%s}", "(%s) | (%s)", "(%s) & {1}", "!(%s)", "-(%s)", "(%s) ** 2", "(%s) % 0", "(%s) < (%s)",
+                "(%s) * {2}", "(%s).min.max", "(%s) + 'x'", "(%s) / (%s)", "(%s) || true"]  # (no "2 ** (%s)": a tower over 1e5000 is a legitimate endless computation)
+
+
+def corner_expression(base: int, wraps: typing.Sequence[int]) -> str:
+    e = CORNER_BASES[base % len(CORNER_BASES)]
+    for w in wraps:
+        t = CORNER_WRAPS[w % len(CORNER_WRAPS)]
+        e = t.replace("%s", e)
+    return e
+
+
 def sanitize(text: str) -> str:
     """Keep the input inside the bounded quantifier: <= 2 KiB, one ** per line, short exponent literals, nesting <= 16."""
     text = text[:2048]
@@ -247,8 +264,10 @@ def check_names(case: typing.Any, ctx: Ctx) -> Info:
         # a well-formed definition file *name* that names something else: a directory, a symbolic link (to a definition inside the
         # namespace, to a file outside of it, to nothing), a file that is not text
         rel = "/".join([ROOT] + list(special["dirs"]) + [special["name"]])
-        kind = special["kind"] % 5
-        if kind == 0:
+        kind = special["kind"] % 6
+        if kind == 5:
+            files[rel] = ["link", rel]  # a link to itself
+        elif kind == 0:
             files[rel] = ["dir"]
         elif kind == 1:
             files["outside/Elsewhere.1.0.dsdl"] = bodies[1]
@@ -259,11 +278,16 @@ def check_names(case: typing.Any, ctx: Ctx) -> Info:
         elif kind == 3:
             files[rel] = ["link", "nowhere/Gone.1.0.dsdl"]
         else:
-            files[rel] = ["bytes", ["ff", "c3", "e28228", "80", "f0288cbc", "fffe410042"][special["bytes"] % 6] + "0a" + "407365616c65640a"]
+            junk = ["ff", "c3", "e28228", "80", "f0288cbc", "fffe410042", "b0", "e9"][special["bytes"] % 8]
+            # not text at all / a stray byte in a comment / inside a string literal that is compared, printed, or initialises a constant
+            templates = ["%s0a407365616c65640a", "2320636f6d6d656e7420%s0a407365616c65640a", "75696e7438204445475245452d3d2027%s270a407365616c65640a".replace("2d", ""),
+                         "407072696e742027%s270a407365616c65640a", "4061737365727420272027203d3d2027%s270a407365616c65640a", "75696e74382061202320%s0a407365616c65640a",
+                         "696e7431362058203d2022%s220a407365616c65640a"]
+            files[rel] = ["bytes", templates[(special["bytes"] // 8) % len(templates)] % junk]
     out = _outcome(ctx, files, "names")
     info = _classify("names", out, True)
     if special is not None:
-        info.classes = list(info.classes) + ["special:" + ["directory", "link-outside", "link-inside", "link-dangling", "not-text"][special["kind"] % 5]]
+        info.classes = list(info.classes) + ["special:" + ["directory", "link-outside", "link-inside", "link-dangling", "not-text", "link-loop"][special["kind"] % 6]]
     info.nontrivial = True
     info.sample = {"files": sorted(files), "outcome": out}
     return info
@@ -343,14 +367,15 @@ def parts(ctx: Ctx) -> typing.List[Part]:
     )
     tail = st.sampled_from(["", " / 3", " + 0.5", " + 1/3", " * 1.5", " - 1", " / 7 * 2", " * 3"])
     extreme = st.tuples(st.sampled_from(["", "-"]), magnitude, tail).map(lambda t: t[0] + "(" + t[1] + ")" + t[2] if t[0] else t[1] + t[2])
+    composed = st.tuples(st.integers(0, len(CORNER_BASES) - 1), st.lists(st.integers(0, len(CORNER_WRAPS) - 1), min_size=1, max_size=2)).map(lambda t: corner_expression(t[0], t[1]))
     targeted_cases = st.fixed_dictionaries(
-        {"expr": st.one_of(st.integers(0, len(TARGETED) - 1), st.integers(0, len(TARGETED) - 1), extreme), "sink": st.integers(0, len(SINKS) - 1), "before": st.integers(0, 4), "newline": st.booleans(), "as_dependency": st.booleans()}
+        {"expr": st.one_of(st.integers(0, len(TARGETED) - 1), st.integers(0, len(TARGETED) - 1), extreme, composed, composed), "sink": st.integers(0, len(SINKS) - 1), "before": st.integers(0, 4), "newline": st.booleans(), "as_dependency": st.booleans()}
     )
     twin = st.one_of(st.none(), st.none(), st.fixed_dictionaries({"dirs": st.lists(st.sampled_from(["sub", "x"]), max_size=1), "kind": st.integers(0, 2), "body": st.integers(0, 2)}))
     special = st.one_of(
         st.none(),
         st.none(),
-        st.fixed_dictionaries({"kind": st.integers(0, 4), "dirs": st.lists(st.sampled_from(["sub", "deep"]), max_size=2), "name": st.sampled_from(["Odd.1.0.dsdl", "7000.Odd.1.0.dsdl", "Odd.1.0.uavcan", "A.2.3.dsdl"]), "bytes": st.integers(0, 5)}),
+        st.fixed_dictionaries({"kind": st.integers(0, 5), "dirs": st.lists(st.sampled_from(["sub", "deep"]), max_size=2), "name": st.sampled_from(["Odd.1.0.dsdl", "7000.Odd.1.0.dsdl", "Odd.1.0.uavcan", "A.2.3.dsdl"]), "bytes": st.integers(0, 55)}),
     )
     name_cases = st.fixed_dictionaries({"entries": st.lists(st.tuples(st.lists(_dir_name(), max_size=2), _file_name()), min_size=0, max_size=3), "twin": twin, "special": special})
     out = [
